@@ -645,21 +645,27 @@ def _selfloop_pairs(g: CGraph, budget: int):
     ONE following edge; this pass replays shortest path + loop + next for further followers, loops of kills
     and teardowns first, thinned deterministically to the budget."""
     loops = [i for i, e in enumerate(g.edges) if e[0] == e[2] and e[0] in g.parent]
-    loops.sort(key=lambda i: (LOOP_PRIORITY.get(g.edges[i][1]["n"], 9), i))
+    loops.sort(key=lambda i: (0 if g.edges[i][4] else 1, LOOP_PRIORITY.get(g.edges[i][1]["n"], 9), i))
     total = sum(len(g.out[g.edges[i][0]]) for i in loops)
     pairs = []
     if total <= budget:
         for i in loops:
             pairs += [(i, j) for j in g.out[g.edges[i][0]]]
         return pairs, total, len(loops)
-    # every loop gets the same share of followers, taken at a stride that rotates with the loop
-    share = max(1, budget // max(1, len(loops)))
-    for n, i in enumerate(loops):
+    # loops that TLC labelled (e.g. the kill of an untracked parent of an avatar) get every follower, up to half
+    # of the budget; the others one follower each, taken at a position that rotates with the loop
+    rest = []
+    for i in loops:
         outs = g.out[g.edges[i][0]]
-        step = max(1, len(outs) // share)
-        pairs += [(i, outs[k]) for k in range(n % step, len(outs), step)][:share]
+        if g.edges[i][4] and len(pairs) + len(outs) <= budget // 2:
+            pairs += [(i, j) for j in outs]
+        else:
+            rest.append(i)
+    for n, i in enumerate(rest):
         if len(pairs) >= budget:
             break
+        outs = g.out[g.edges[i][0]]
+        pairs.append((i, outs[(7 * n) % len(outs)]))
     return pairs, total, len(loops)
 
 
